@@ -25,7 +25,7 @@ from ..faults import by_class, plant, base_statements
 from ..tlc import run_tlc, require_ok
 from .. import clitrace
 
-INVS = ["TypeOK", "FailIffError", "NoOutputAfterError", "WarningsAreInert", "ErrorsAlwaysShown", "OutcomeAutomaton",
+INVS = ["ReportedErrorFails", "TypeOK", "FailIffError", "NoOutputAfterError", "WarningsAreInert", "ErrorsAlwaysShown", "OutcomeAutomaton",
         "Balanced", "CriticalIsLast", "WarningsOnlySucceed", "Export"]
 
 STALE_NAMES = ["x.bin", "x", "main.bin", "main", "out1.bin", "out2.bin", "out1.dat", "out2.dat",
@@ -65,10 +65,10 @@ SLOTSETS = [[1, 3, 5], [0, 2, 6], [2, 4, 5], [0, 3, 6]]
 
 def render_program(rec, seed):
     """-> (files {rel: text}, cli input files, kinds).  Location mode by program index: all faults in
-    main.mac | the last fault in a second linked file | the last fault in an included file."""
+    main.mac | the last fault in a second linked file | the last fault in an included file | in a file included by an included file."""
     kinds = choose_kinds(rec, seed)
     rks = [k.render(i + 1) for i, k in enumerate(kinds)]
-    mode = rec["prog"] % 3
+    mode = rec["prog"] % 4            # 3: the last fault in a file included by an included file
     slots = SLOTSETS[(rec["prog"] // 3 + seed) % len(SLOTSETS)]
     files, fs = {}, {}
     for rk in rks:
@@ -80,19 +80,22 @@ def render_program(rec, seed):
     other = None
     if mode != 0 and rks:
         other = main_plans.pop()
-    if mode == 2:
+    if mode >= 2:
         # the include statement is planted like a fault block of its own, so that it never lands between a fault statement
         # and the set-up statements that belong to it (e.g. '.byte' and its '.even')
-        main_plans.append((rec["prog"] % 7, {"pre": [], "stmt": ".include /inc.mac/", "post": [], "culprit": (0, 8), "fs": {}}))
+        main_plans.append((rec["prog"] % 7, {"pre": [], "stmt": ".include /inc.mac/" if mode == 2 else ".include /outer.mac/", "post": [],
+                                             "culprit": (0, 8), "fs": {}}))
     main_text, _ = plant(main_plans, "m")
     infiles = ["main.mac"]
     if mode == 1:
         text2, _ = plant([other] if other else [], "s")
         files["second.mac"] = text2
         infiles.append("second.mac")
-    elif mode == 2:
+    elif mode >= 2:
         text2, _ = plant([other] if other else [], "i")
         files["inc.mac"] = text2
+        if mode == 3:
+            files["outer.mac"] = "\tnop\nouter1:\t.word outer1\n\t.include /inc.mac/\n\tnop\n"
     files["main.mac"] = "".join(h + "\n" for h in head) + main_text
     files.update(fs)
     return files, infiles, kinds
@@ -138,6 +141,25 @@ def run_task(task):
         root = str(d).encode()
         return {"rc": r["rc"], "hang": r["hang"], "out": r["out"].replace(root, b"<ROOT>").hex(), "err": r["err"].replace(str(d), "<ROOT>"),
                 "changed": {k: v.replace(root, b"<ROOT>").hex() for k, v in r["changed"].items()}, "removed": r["removed"]}
+    finally:
+        rmtree(d)
+
+
+# make_xxx targets that cannot be written, each for another reason the operating system gives
+ENV_TARGETS = [("build", "dir"), ("nodir/out.bin", "missing-dir"), ("notes.txt/out.bin", "through-file"), ("n" * 300, "long-name"),
+               (".", "dot"), ("build/", "dir-slash")]
+
+
+def run_env_task(task):
+    d = Path(tempfile.mkdtemp(prefix="c07e-", dir=tmp_root()))
+    try:
+        for rel, text in task["files"].items():
+            (d / rel).write_text(text, encoding="utf-8")
+        (d / "build").mkdir()
+        (d / "notes.txt").write_text("a regular file\n")
+        r = run_cli(task["args"], d, timeout=60)
+        return {"rc": r["rc"], "hang": r["hang"], "out": r["out"].hex(), "err": r["err"].replace(str(d), "<ROOT>"),
+                "changed": sorted(r["changed"]), "removed": r["removed"]}
     finally:
         rmtree(d)
 
@@ -338,6 +360,38 @@ def main(run):
         r, t = failing
         run.sample({"args": t["args"], "kinds": t["kinds"], "predicted_exit": 1, "predicted_files": []})
 
+    # ---------------- unwritable directive outputs (Cli.tla: EnvFaultDirective).  Outside the property's quantifier as far as
+    # the files of OTHER directives go (an earlier make_xxx of the same run has been written already), but ReportedErrorFails
+    # holds in every run: the failure is an issued and shown error, exit status non-zero, and neither -o nor the listing is written
+    etasks = []
+    for di, directive in enumerate(("make_bin", "make_raw", "make_wav", "make_turbo_wav", "make_bk0010_rom")):
+        for ti, (target, setup) in enumerate(ENV_TARGETS):
+            for vi, extra in enumerate((["--report-format=bare"], ["-Wall"], ["--report-format=bare", "-Wno-all", "-o", "x.bin", "--lst"], ["--lst", "-o", "x"])):
+                if (di + ti + vi + run.seed) % (1 if thorough else 2):
+                    continue
+                etasks.append({"directive": directive, "target": target, "setup": setup, "args": extra + ["main.mac"],
+                               "files": {"main.mac": f"\t.link 1000\n\tmov #1, r0\n\t{directive} \"{target}\"\n\tnop\n"}})
+    for t, res in zip(etasks, pmap(run_env_task, etasks)):
+        run.add_eval()
+        run.add_nontrivial(("env", t["directive"], t["target"][:20], tuple(t["args"])))
+        what = f"`pdpy11 {' '.join(t['args'])}` with {t['directive']} \"{t['target'][:40]}\" ({t['setup']})"
+        if res["hang"]:
+            run.violation(f"unwritable directive output: {what} does not terminate", t, files=t["files"], tags=["outcome:hang"])
+            continue
+        out = bytes.fromhex(res["out"]).decode("utf-8", "replace")
+        n_err = sum(1 for ln in out.split("\n") if BARE_LINE.match(ln) and BARE_LINE.match(ln).group("sev") == "Error") + res["err"].count(GRAPHICAL_ERROR)
+        bad = []
+        if res["rc"] == 0:
+            bad.append("exit status 0")
+        if n_err < 1:
+            bad.append(f"no error diagnostic printed (exit status {res['rc']}; stderr ends {res['err'][-160:]!r})")
+        if res["changed"] or res["removed"]:
+            bad.append(f"files created or modified {sorted(res['changed'])}, removed {res['removed']}")
+        if bad:
+            run.violation(f"unwritable directive output: {what}: " + "; ".join(bad), {"case": {k: t[k] for k in ("directive", "target", "setup", "args")},
+                                                                                     "rc": res["rc"], "stderr_tail": res["err"][-600:]}, files=t["files"])
+    run.note("unwritable_directive_output_runs", len(etasks))
+
     # ---------------- (C->M) ordered event traces of in-process runs, validated by CliTrace.tla
     ttasks = [t for r, t in zip(chosen, tasks) if r["var"] in (0, 1, 3, 11)] if not thorough else tasks
     traces = pmap(run_trace_task, ttasks)
@@ -362,7 +416,8 @@ def main(run):
         "beside the chosen output with the format's own extension replaced by .lst; '-o -' => stdout and listing.lst) is "
         "DESIGN.md 3.6; the property itself speaks only of whether files are written",
         "an error diagnostic is recognised in the output as a bare line '<file>:<l>:<c>: Error: ' or a graphical header 'Error in <file>'",
-        "environment faults of the output phases (unwritable paths) are exempt and not generated",
+        "environment faults of the output phases are exempt from the file-set predictions; unwritable DIRECTIVE outputs are generated for "
+        "the clause that holds in every run (an issued error fails the run, is shown, and -o / listing are not written)",
         "faults are chosen from harness/faults.py by (phase, severity) class; the classes compile.critical and link.critical are "
         "not inhabited (pdpy11 has critical diagnostics only in the parser)",
     ]
